@@ -41,8 +41,9 @@ def decDerive (bo : ByteOrder) (buf : List UInt8) (nfds : Option Nat) (cases : L
     match findCase cases sg with
     | none => none
     | some (i, t) =>
-      -- the typed decoder of the case runs in the same context: the variant level is not counted
-      match dec bo buf nfds maxDepth t o lim with
+      -- the typed decoder of the case runs one container level down (`ctx.in_container(1, ..)`; a case with several
+      -- fields enters two levels and reads the fields directly: the same count as the struct decoder one level down)
+      match dec bo buf nfds (maxDepth - 1) t o lim with
       | some (v, o') => some (i, v, o')
       | none => none
 
@@ -54,7 +55,7 @@ def decCatchall (bo : ByteOrder) (buf : List UInt8) (nfds : Option Nat) (cases :
   | some (sg, o) =>
     match findCase cases sg with
     | some (i, t) =>
-      match dec bo buf nfds maxDepth t o lim with
+      match dec bo buf nfds (maxDepth - 1) t o lim with
       | some (v, o') => some (.case i v, o')
       | none => none
     | none =>
